@@ -52,6 +52,7 @@ func (t *Tracer) trace(c context.Context, pgid int) (result runner.Result) {
 			result.Error = fmt.Sprintf("%v", err)
 		}
 		// kill all tracee upon return
+		verifEvent(pgid, "killall", pgid, int(result.Status))
 		killAll(pgid)
 		collectZombie(pgid)
 		if !ph.fTime.IsZero() {
@@ -86,6 +87,7 @@ func (t *Tracer) trace(c context.Context, pgid int) (result runner.Result) {
 			return
 		}
 		t.Handler.Debug("------ ", pid, " ------")
+		verifEvent(pgid, "wait", pid, int(wstatus))
 
 		// update rusage
 		if pid == pgid {
@@ -177,6 +179,7 @@ func (ph *ptraceHandle) handle(pid int, wstatus unix.WaitStatus) (status runner.
 			exitStatus = int(sig)
 			return
 		}
+		verifEvent(ph.pgid, "cont", pid, int(sig))
 		unix.PtraceCont(pid, int(sig))
 
 	case wstatus.Stopped():
@@ -185,6 +188,7 @@ func (ph *ptraceHandle) handle(pid int, wstatus unix.WaitStatus) (status runner.
 			ph.Handler.Debug("set ptrace option for", pid)
 			ph.traced[pid] = true
 			// Ptrace set option valid if the tracee is stopped
+			verifEvent(ph.pgid, "setopt", pid, 0)
 			if err := setPtraceOption(pid); err != nil {
 				// the tracee was killed while stopped (e.g. exit_group of
 				// another thread): its death will be reported by wait4
@@ -235,10 +239,12 @@ func (ph *ptraceHandle) handle(pid int, wstatus unix.WaitStatus) (status runner.
 				// a SIGTRAP without ptrace event after execve is a signal sent to
 				// the program itself, deliver it like any other signal
 				if trapCause == 0 && ph.execved {
+					verifEvent(ph.pgid, "cont", pid, int(stopSig))
 					unix.PtraceCont(pid, int(stopSig))
 					return
 				}
 			}
+			verifEvent(ph.pgid, "cont", pid, 0)
 			unix.PtraceCont(pid, 0)
 			return
 
@@ -257,6 +263,7 @@ func (ph *ptraceHandle) handle(pid int, wstatus unix.WaitStatus) (status runner.
 			ph.Handler.Debug("ptrace unexpected stop signal: ", stopSig)
 		}
 		ph.Handler.Debug("ptrace stopped")
+		verifEvent(ph.pgid, "cont", pid, int(stopSig))
 		unix.PtraceCont(pid, int(stopSig))
 	}
 	return
@@ -280,11 +287,13 @@ func (ph *ptraceHandle) handleTrap(pid int) error {
 			return err
 		}
 		act := ph.Handler.Handle(ctx)
+		verifEvent(ph.pgid, "decide", pid, int(act))
 
 		switch act {
 		case TraceBan:
 			// Set the syscallno to -1 and return value into register to skip syscall.
 			// https://www.kernel.org/doc/Documentation/prctl/pkg/seccomp_filter.txt
+			verifEvent(ph.pgid, "skip", pid, 0)
 			if err := ctx.skipSyscall(); err != nil && err != unix.ESRCH {
 				return err
 			}
